@@ -416,6 +416,10 @@ def _as_any(t: Term) -> Optional[Tuple[Term, bool]]:
     return None
 
 
+def _surely_bool(t: Term) -> bool:
+    return t[0] in ("cmp", "not", "bool") or (t[0] == "call" and t[1] in (("name", "isinstance"), ("name", "issubclass"), ("name", "any"), ("name", "all"), ("name", "callable"), ("name", "hasattr")))
+
+
 def canon_pred(t: Term) -> Tuple[Term, bool]:
     """Canonical (predicate, polarity): `not p`, `!=`, `is not`, `not in`, `>`, `>=` are
     rewritten so that syntactic variants of one test share a key; aggregate tests over a
@@ -440,6 +444,13 @@ def canon_pred(t: Term) -> Tuple[Term, bool]:
                 t = ("cmp", "==", r, l)
             elif op == "is" and l == NONE:
                 t = ("cmp", "is", r, l)
+        if t[0] == "cmp" and t[1] in ("is", "==") and TRUE in (t[2], t[3]) and _surely_bool(t[3] if t[2] == TRUE else t[2]):
+            t = t[3] if t[2] == TRUE else t[2]
+            continue
+        if t[0] == "cmp" and t[1] in ("is", "==") and FALSE in (t[2], t[3]) and _surely_bool(t[3] if t[2] == FALSE else t[2]):
+            t = t[3] if t[2] == FALSE else t[2]
+            pol = not pol
+            continue
         if t[0] == "cmp" and t[1] == "is" and t[3] == TRUE:
             t = t[2]
             continue
